@@ -24,6 +24,10 @@ pub const T_DEF: &str = MAIN_DEF;
 pub const U_DEF: &str = "CREATE TABLE u(row = '^#([a-z]+)?;(-?[0-9]+)?;([^;]+)?;([^;]+)?$', row[1] => k TEXT, row[2] => v INT, row[3] => y TEXT, row[4] => r REAL);";
 
 pub fn defs() -> String { format!("{}\n{}", T_DEF, U_DEF) }
+/// the joined table with declared DEFAULTs: every line of the joined file is then a row, and the NULL padding of an
+/// OUTER JOIN must still be NULL (not the column's DEFAULT)
+pub const U_DEF_DFLT: &str = "CREATE TABLE u(row = '^#([a-z]+)?;(-?[0-9]+)?;([^;]+)?;([^;]+)?$', row[1] => k TEXT, row[2] => v INT DEFAULT 7, row[3] => y TEXT DEFAULT 'nobody', row[4] => r REAL);";
+pub fn defs_dflt() -> String { format!("{}\n{}", T_DEF, U_DEF_DFLT) }
 
 const KEYS: &[&str] = &["a", "b", "c", "ab"];
 const REALS: &[&str] = &["0.5", "0", "-0.0", "1e3", "1000", "nan", "x", "3"];
@@ -240,8 +244,16 @@ pub fn run(p: &Params) -> Run {
     let missing_path = tmp_dir().join("no-such-file.txt").display().to_string();
     let tables = crate::runq::parse_tables(&defs).expect("C05 definitions");
     let t = tables.get("t").unwrap().clone();
-    let u = tables.get("u").unwrap().clone();
+    let u_plain = tables.get("u").unwrap().clone();
+    let defs_plain = defs.clone();
+    let defs_d = defs_dflt();
+    let u_dflt = crate::runq::parse_tables(&defs_d).expect("C05 definitions with DEFAULT").get("u").unwrap().clone();
     for i in 0..n {
+        // one case in five: the joined table declares DEFAULT values
+        let dflt = i % 5 == 3;
+        let defs = if dflt { defs_d.clone() } else { defs_plain.clone() };
+        let u = if dflt { u_dflt.clone() } else { u_plain.clone() };
+        if dflt { run.count("joined-table-with-defaults"); }
         let js = gen_join_spec(&mut rng);
         let st = gen_stmt(&mut rng);
         // inputs: few keys so that duplicates, fan-out and absent keys are all frequent
